@@ -6,7 +6,7 @@ from vlib import Case
 TRUSTED_BASE = [
     "Coq 8.16.1 kernel incl. vm_compute (no native_compute); full .vo builds via coq_makefile",
     "axioms: none (Print Assumptions of every property theorem must say 'Closed under the global context')",
-    "translator tools/extract.py (constants and shapes copied from the Rust sources into gen/Extracted.v)",
+    "translator tools/extract.py (constants and shapes copied from the Rust sources into gen/Extracted.v; an item it cannot locate keeps its committed baseline value, tools/extracted_baseline.json, and breaks exactly the properties in whose coqdep dependency closure its identifier occurs)",
     "correspondence check: tools/vlib.py + harness/libdrv (scripted I/O, canonical observation) + Run/RunLib.v evaluated by vm_compute; it is differential testing and bounds how far the model is the code",
     "all of kestrel's Rust is modelled, not verified; orion, ct-codecs, getopts, std::io are specified in Gallina from their RFCs/sources and compared, not proved equal",
 ]
@@ -47,6 +47,9 @@ class Prop:
     assumptions = []
     trusted_extra = []
     profiles = ("dev",)
+    # .v files (relative to coq/) the correspondence cases of the property import: with Props/<id>.v they are the roots of the
+    # dependency closure that decides whether an extracted item the translator could not locate matters here (./check)
+    run_modules = ("Run/RunLib.v",)
 
     def build(self, ctx):
         ok, out, binp = vlib.build_harness("dev")
@@ -1046,6 +1049,7 @@ class C06(KvaRefKdf, Prop):
 
 class C09(Prop):
     id = "C09"
+    run_modules = ("Run/RunLib.v", "Run/RunKeyring.v", "Run/RunCli.v")   # also runs CLI / keyring cases (props_cli)
     rule = ("cases: every length 0..200 (thorough 0..400) of all-zero / all-0xff / random / authentic-prefix content at "
             "each binary surface (chunk loop, key file, password file, Noise handshake message, AEAD ciphertext), hostile "
             "length fields; outcome must be a value (Ok/Err), never panic/abort; memory while rejecting: peak heap of single "
@@ -1677,6 +1681,7 @@ def reference_key_file(ctx, e, epk, s_or_none, spk, rpk, payload, P, es_override
 
 class C05(Prop):
     id = "C05"
+    run_modules = ("Run/RunLib.v", "Run/RunKeyring.v", "Run/RunCli.v")   # also runs CLI / keyring cases (props_cli)
     rule = ("cases: files written by the real encryptor and by an independent reference writer (assembled from the exported "
             "primitives) for every combination of private key used / public key claimed / recipient addressed; decryption "
             "with wrong recipient private key, wrong recipient public key, both; all low-order and non-canonical-low-order "
